@@ -339,6 +339,96 @@ def run(ctx):
                         r.fail(fn, c, norm(c), "the confirmation applies its pattern with re.%s: an answer that merely contains a match ('no way' for the pattern 'y|w') confirms" % c.func.attr)
     if n7 == 0:
         r.fail(list(cq.methods.values())[0], cq.node, "pattern not applied", "ConfirmationQuestion never applies its true-answer pattern")
+
+    # ---------------------------------------------------------------- R9
+    r = ctx.rule("C18-R9", "RESET", "'gives up at end of input' needs an end: loading a script into a string input stream discards what the stream held before - set() reaches a "
+                 "truncate of the buffer (directly or through clear()) before it writes", reference=1)
+    sis = ctx.cls("clikit.io.input_stream.string_input_stream.StringInputStream")
+    setm = sis.methods.get("set")
+    ctx.require(setm is not None, "StringInputStream.set missing")
+    scfg = ctx.cfg(setm)
+    def truncates(m_, depth=0):
+        ids = set()
+        c_ = ctx.cfg(m_)
+        for call in q.calls(m_):
+            if isinstance(call.func, ast.Attribute) and call.func.attr == "truncate":
+                ids |= {n.id for n in c_.nodes_of(call)}
+            elif depth < 2 and isinstance(call.func, ast.Attribute) and isinstance(call.func.value, ast.Name) and call.func.value.id == "self" and call.func.attr in sis.methods:
+                h = sis.methods[call.func.attr]
+                hc = ctx.cfg(h)
+                ht = truncates(h, depth + 1)
+                if ht and hc.post_dominated_by(hc.entry.id, ht):
+                    ids |= {n.id for n in c_.nodes_of(call)}
+        return ids
+    tr = truncates(setm)
+    wr = [n for c in q.calls(setm) if isinstance(c.func, ast.Attribute) and c.func.attr == "write" for n in scfg.nodes_of(c)]
+    fresh_buf = any(isinstance(n, ast.Assign) and any(is_self_attr(t, "_stream") for t in n.targets) for n in walk_no_nested(setm.node))
+    if not wr:
+        r.fail(setm, setm.node, "set writes nothing", "StringInputStream.set does not write the new text")
+    elif fresh_buf or (tr and all(any(scfg.dominates(t, w.id) for t in tr) for w in wr)):
+        r.ok("%s: old content truncated before the new text is written" % setm.short)
+    else:
+        r.fail(setm, wr[0].ast, "write without truncate", "%s writes the new text over the old buffer without truncating it: when the new script is shorter the tail of the old one is still readable, "
+               "so a question past its last line reads stale answers instead of reaching the end of the input" % setm.short)
+
+    # ---------------------------------------------------------------- R10
+    r = ctx.rule("C18-R10", "ORDER", "an ambiguous entry (a value that occurs more than once among the choices) is an invalid entry, whether or not a look-up would find it: the ambiguity "
+                 "test lies on every path from the matching loop to the acceptance of the value", reference=1)
+    amb = [c for c in vcfg.conds() if isinstance(c.ast, ast.Compare) and isinstance(c.ast.left, ast.Call) and isinstance(c.ast.left.func, ast.Name) and c.ast.left.func.id == "len"
+           and isinstance(c.ast.ops[0], (ast.Gt, ast.GtE)) and vcfg.true_of(c) is not None and vcfg.inevitably_raises(vcfg.true_of(c).id)]
+    accepts = [n for c in q.calls(val) if isinstance(c.func, ast.Attribute) and c.func.attr == "append" and c.args and isinstance(c.args[0], ast.Name) and c.args[0].id.startswith("result") and not c.args[0].id.endswith("s")
+               for n in vcfg.nodes_of(c)]
+    if not amb:
+        r.fail(val, val.node, "no ambiguity test", "the validator never rejects an ambiguous value")
+    elif not accepts:
+        r.note("acceptance site not recognised")
+        r.vacuous_ok = True
+    else:
+        x = amb[0].ast.left.args[0]
+        starts = [n for n in vcfg.nodes if n.kind == "stmt" and isinstance(n.ast, ast.Assign) and isinstance(x, ast.Name) and any(isinstance(t, ast.Name) and t.id == x.id for t in n.ast.targets)]
+        amb_ids = {c.id for c in amb}
+        if starts and all(vcfg.all_paths_hit(s_.id, amb_ids, [a.id for a in accepts]) for s_ in starts):
+            r.ok("%s: `%s` is tested on every path to the acceptance" % (val.short, norm(amb[0].ast)))
+        else:
+            r.fail(val, amb[0].ast, "ambiguity test `%s` not on every path" % norm(amb[0].ast), "%s reaches the acceptance of a value on a path that skips the ambiguity test (it only runs when the look-up failed, "
+                   "which never happens for a value that is present twice): a duplicated choice is accepted silently - no error, no attempt consumed" % val.short)
+
+    # ---------------------------------------------------------------- R11
+    r = ctx.rule("C18-R11", "TABLE", "'exactly for inputs matching its pattern': the confirmation keeps the pattern it was given - the constructor stores the parameter itself (no flags added, no rewrite)", reference=1)
+    cinit = cq.methods.get("__init__")
+    rx_fields = {x.attr for m_ in cq.methods.values() for fn_ in [m_] + list(getattr(m_, "nested", {}).values()) for c in q.calls(fn_) if isinstance(c.func, ast.Attribute) and isinstance(c.func.value, ast.Name) and c.func.value.id == "re" and c.args
+                 for x in walk_no_nested(c.args[0]) if is_self_attr(x)}
+    n11 = 0
+    for n in walk_no_nested(cinit.node) if cinit else []:
+        if isinstance(n, ast.Assign) and any(is_self_attr(t) and t.attr in rx_fields for t in n.targets):
+            n11 += 1
+            v = n.value
+            plain_ = isinstance(v, ast.Name) and v.id in cinit.params
+            compiled = isinstance(v, ast.Call) and norm(v.func) == "re.compile" and len(v.args) == 1 and not v.keywords and isinstance(v.args[0], ast.Name) and v.args[0].id in cinit.params
+            if plain_ or compiled:
+                r.ok("%s: %s" % (cinit.short, norm(n)))
+            else:
+                r.fail(cinit, n, norm(n), "the confirmation stores `%s` instead of the pattern it was given: a case-sensitive custom pattern such as '^Y' answers true for 'y'" % norm(v))
+    if n11 == 0:
+        r.vacuous_ok = True
+
+    # ---------------------------------------------------------------- R12
+    r = ctx.rule("C18-R12", "RANGE", "a one-entry choice list can be asked: `max(*seq)` (which needs at least two arguments) is only evaluated behind a test that the sequence has more than one element", reference=1)
+    n12 = 0
+    for f in [x for x in p.all_functions() if x.cls is not None and qcls in x.cls.mro]:
+        fcfg = ctx.cfg(f)
+        for c in q.calls(f):
+            if isinstance(c.func, ast.Name) and c.func.id in ("max", "min") and len(c.args) == 1 and isinstance(c.args[0], ast.Starred):
+                n12 += 1
+                ok_ = all(guarded_by(fcfg, cn, lambda e: isinstance(e, ast.Compare) and isinstance(e.left, ast.Call) and isinstance(e.left.func, ast.Name) and e.left.func.id == "len"
+                                     and ((isinstance(e.ops[0], ast.Gt) and isinstance(e.comparators[0], ast.Constant) and e.comparators[0].value >= 1)
+                                          or (isinstance(e.ops[0], ast.GtE) and isinstance(e.comparators[0], ast.Constant) and e.comparators[0].value >= 2)), polarity=True) is not None for cn in fcfg.nodes_of(c))
+                if ok_:
+                    r.ok("%s: %s behind a length test" % (f.short, norm(c)[:40]))
+                else:
+                    r.fail(f, c, norm(c)[:60] + " without len > 1", "%s evaluates `%s` where the sequence may hold a single element: max(5) raises TypeError - a choice question with one choice fails before it reads anything" % (f.short, norm(c)[:40]))
+    if n12 == 0:
+        r.vacuous_ok = True
     return ctx.results
 
 
